@@ -192,6 +192,8 @@ type World struct {
 	StopErrs  []string
 	stopCh    <-chan error
 	StopSeen  []string
+	// HeldWorkers: callers that were held inside SendRequest by a held race group
+	HeldWorkers int
 	// StalledAtStop: clients that were not reading when the last fault struck
 	StalledAtStop map[int]bool
 	Port          int               // real API port (Listen)
@@ -252,6 +254,9 @@ func NewWorld(cfg WorldConfig) (*World, error) {
 		sc.Port = uint16(w.Port)
 		if cfg.ListenMetrics {
 			w.MetricsPort = freePort()
+			for i := 0; i < 5 && w.MetricsPort == w.Port; i++ {
+				w.MetricsPort = freePort()
+			}
 			sc.MetricsPort = uint16(w.MetricsPort)
 		}
 	}
@@ -516,7 +521,9 @@ func (w *World) Exec(op Op) {
 		b, _ := json.Marshal(sop)
 		w.Journal.Write(append(b, '\n'))
 	}
-	if op.K == "par" {
+	if op.K == "par" && op.O == "held" {
+		w.execHeld(op)
+	} else if op.K == "par" {
 		var wg sync.WaitGroup
 		start := make(chan struct{})
 		// service-side ops are executed in script order from one goroutine, client ops from their own
@@ -552,6 +559,54 @@ func (w *World) Exec(op Op) {
 	for _, m := range w.Monitors {
 		m.OnStepEnd(w, w.step)
 	}
+}
+
+// execHeld runs a race group with the worker of a connection held: the
+// messaging client stops returning from SendRequest, the client request of the
+// group makes the connection's worker send a request (and stay in it), the
+// fault (close, stop, lose) strikes and the connection's disposal is queued
+// behind the held work, the service-side ops of the group (answers) are
+// delivered, and only then the worker is let go. The answer's hand-over to the
+// connection so lands between the queued disposal and its execution.
+func (w *World) execHeld(op Op) {
+	var creq, fault *Op
+	var rest []Op
+	for i := range op.Par {
+		p := &op.Par[i]
+		switch {
+		case p.K == "creq" && creq == nil:
+			creq = p
+		case (p.K == "close" || p.K == "stop" || p.K == "lose") && fault == nil:
+			fault = p
+		default:
+			rest = append(rest, *p)
+		}
+	}
+	w.mq.Hold()
+	defer w.mq.Release()
+	if creq != nil {
+		w.execOne(*creq)
+	}
+	for i := 0; i < 200 && w.mq.Held() == 0; i++ {
+		time.Sleep(5 * time.Millisecond)
+	}
+	w.HeldWorkers += w.mq.Held()
+	done := make(chan struct{})
+	go func() {
+		defer close(done)
+		if fault != nil {
+			w.execOne(*fault)
+		}
+	}()
+	// the socket is closed, the read loop returns and queues the disposal
+	time.Sleep(40 * time.Millisecond)
+	for _, p := range rest {
+		w.execOne(p)
+	}
+	// the answer's callback reaches the connection's queue
+	time.Sleep(15 * time.Millisecond)
+	w.mq.Release()
+	<-done
 }
 
 func (w *World) client(i int) *Client {
